@@ -421,7 +421,19 @@ func (f *Func) ParamObj(i int) *types.Var {
 }
 
 // ParamByName returns the parameter object with the given name.
+// ParamRoles freezes, for the anchored functions whose parameters a rule refers to by role ("limit", "before", ...), the
+// position that role has in the signature on the pinned tree. A parameter is looked up by position first, so that
+// renaming it does not blind the rule; the name is only the fallback for functions without an entry.
+var ParamRoles = map[string]map[string]int{}
+
 func (f *Func) ParamByName(name string) *types.Var {
+	if roles, ok := ParamRoles[f.Key]; ok {
+		if idx, ok := roles[name]; ok {
+			if v := f.ParamObj(idx); v != nil {
+				return v
+			}
+		}
+	}
 	for _, fld := range f.Type.Params.List {
 		for _, nm := range fld.Names {
 			if nm.Name == name {
